@@ -55,23 +55,23 @@ vars == <<Family, prog, S, R, phase, bm, ops, crashed, fixbad, lastres, probes, 
 \* Families: which modules exist, in which order they are written, the statement menu of each module
 \* =========================================================================================================
 Present ==
-  CASE Family \in {"chain", "chain-q", "exports", "exports-q", "reexp", "reexp-q", "topstar", "splice", "attrall"} -> {"p", "p.a", "p.b"}
+  CASE Family \in {"chain", "chain-q", "exports", "exports-q", "reexp", "reexp-q", "topstar", "splice", "attrall", "repeat"} -> {"p", "p.a", "p.b"}
     [] Family \in {"pkg", "pkg-q"} -> {"p", "p.s", "p.s.c"}
     [] Family \in {"graph", "graph-q", "fine"} -> {"p", "p.a", "p.b", "q"}
     [] Family \in {"wild", "wild-q", "retarget", "retarget-q", "selfcyc", "twostar", "apicyc"} -> {"p", "p.a", "p.b"}
-    [] Family \in {"spl-down", "spl-up", "facade"} -> {"p", "p.a", "p.b", "p.s"}
+    [] Family \in {"spl-down", "spl-up", "facade", "relay"} -> {"p", "p.a", "p.b", "p.s"}
     [] Family = "updots" -> {"p", "p.s", "p.s.c"}
     [] Family = "aliasstar" -> {"p", "p.a", "p.b"}
     [] Family = "side" -> {"p", "q", "r"}
     [] OTHER -> {"p"}
 ModOrder ==
-  CASE Family \in {"chain", "chain-q", "exports", "exports-q", "wild", "wild-q", "retarget", "retarget-q", "reexp", "reexp-q", "splice", "attrall"} -> <<"p.a", "p.b", "p">>
+  CASE Family \in {"chain", "chain-q", "exports", "exports-q", "wild", "wild-q", "retarget", "retarget-q", "reexp", "reexp-q", "splice", "attrall", "repeat"} -> <<"p.a", "p.b", "p">>
     [] Family \in {"pkg", "pkg-q"} -> <<"p.s.c", "p.s", "p">>
     [] Family = "topstar" -> <<"p.a", "p", "p.b">>
     [] Family = "spl-down" -> <<"p.s", "p.b", "p.a", "p">>    \* p.a splices p.b's __all__, which splices p.s's: dependents are expanded first
     [] Family = "spl-up" -> <<"p.a", "p.b", "p.s", "p">>      \* p.s splices p.b's, which splices p.a's: dependencies are expanded first
     [] Family = "side" -> <<"r", "q", "p">>
-    [] Family = "facade" -> <<"p.s", "p.a", "p.b", "p">>     \* p star-imports p.b, which re-exports from p.a, which imports the sub-module p.s
+    [] Family \in {"facade", "relay"} -> <<"p.s", "p.a", "p.b", "p">>     \* p star-imports p.b, which re-exports from p.a, which imports the sub-module p.s
     [] Family = "updots" -> <<"p", "p.s", "p.s.c">>          \* the sub-package / its module import from the (already imported) ancestors
     [] Family = "aliasstar" -> <<"p.a", "p.b", "p">>
     [] Family \in {"selfcyc", "twostar", "apicyc"} -> <<"p.a", "p.b", "p">>           \* a sub-module star-imports its (already imported) parent package
@@ -142,6 +142,15 @@ Menu(m) ==
         ( CASE m = "p.a" -> {ImportAs("p.a", "y"), From("p.a.y", "x"), Def("x")}
             [] m = "p.b" -> {From("p.a", "x"), ImportAs("p.a", "y"), From("p.b.y", "x")}
             [] OTHER -> {From("p.b", "x"), From("p.a", "x")} )
+    [] Family = "relay" ->         \* explicit import chains of >= 2 links that end in a wildcard-provided name, below a package that declares __all__
+        ( CASE m = "p.s" -> {Def("x")}                               \* (the chain is resolved early - Alias.kind in expand_exports - and fails)
+            [] m = "p.a" -> {Star("p.s"), From("p.s", "x")}
+            [] m = "p.b" -> {From("p.a", "x"), Star("p.a")}
+            [] OTHER -> {From("p.b", "x"), All(<<"x">>)} )
+    [] Family = "repeat" ->        \* the same import statement written twice with a colliding wildcard import in between
+        ( CASE m = "p.a" -> {Def("x"), Def("y")}
+            [] m = "p.b" -> {FromAs("p.a", "x", "y"), Star("p.a")}
+            [] OTHER -> {} )
     [] Family = "attrall" ->       \* __all__ extended with another module's __all__ through an ATTRIBUTE access (`__all__ += a.__all__`)
         ( CASE m = "p.a" -> {Def("x"), All(<<"x">>)}
             [] m = "p.b" -> {ImportAs("p.a", "a"), All(<<>>), AugInc("@a"), AllInc(<<>>, "@a")} \cup (IF Scale = "quick" THEN {} ELSE {From("p", "a")})
@@ -191,6 +200,8 @@ MaxLen(m) ==
     [] Family \in {"reexp", "reexp-q"} -> 2
     [] Family = "topstar" -> (IF m = "p" THEN 3 ELSE IF m = "p.b" THEN 1 ELSE 2)
     [] Family = "splice" -> (IF m = "p.b" THEN 3 ELSE 2)
+    [] Family = "relay" -> (IF m = "p" THEN 2 ELSE 1)
+    [] Family = "repeat" -> (IF m = "p.b" THEN 3 ELSE 2)
     [] Family = "attrall" -> (IF m = "p.b" THEN 3 ELSE IF m = "p" THEN 1 ELSE 2)
     [] Family \in {"spl-down", "spl-up"} -> (IF m = "p" THEN 1 ELSE 2)
     [] Family = "side" -> (IF m = "r" THEN 1 ELSE 2)
@@ -212,6 +223,7 @@ MaxTotal ==
   ELSE IF Family = "selfcyc" THEN (IF Scale = "quick" THEN 3 ELSE 4)
   ELSE IF Family = "twostar" THEN 3
   ELSE IF Family = "attrall" THEN 6
+  ELSE IF Family \in {"relay", "repeat"} THEN 5
   ELSE IF Family = "facade" THEN 5
   ELSE IF Family = "updots" THEN 4
   ELSE IF Family = "aliasstar" THEN 4
